@@ -357,6 +357,16 @@ def oracle(case):
     """the property on the REAL code only"""
     if "aux" in case:
         return AUX.oracle(case)
+    if case.get("complex"):
+        cc, r = complex_real(case)
+        sigc = {"site": "complex-model"}
+        if "error" in r:
+            return (f"complex constants/input: raised {r['error']} in {r.get('where')}", dict(sigc, kind="error:" + r["error"], where=r.get("where")))
+        if not cclose(r["val"], r["pval"], 1e-12):
+            return ("complex constants/input: value on a Linearization differs from plain evaluation", dict(sigc, kind="value"))
+        if not cclose(r["adj"], r["jac"].conj().T, 1e-12):
+            return ("complex constants/input: adjoint Jacobian is not the conjugate transpose", dict(sigc, kind="adjoint"))
+        return None
     if case.get("kind") == "ptw" or case.get("op") == "ptw":
         names, meta = names_meta()
         g, P = ptw_grid(case["f"], __import__("random").Random(0))
@@ -475,6 +485,89 @@ def complex_oracle(case):
     return None
 
 
+def complex_real(case):
+    """REAL code on a complexified holomorphic tree at a complex input: value, dense Jacobian, dense adjoint"""
+    import random
+    from core.ctx import canon
+    rng = random.Random(canon({k: v for k, v in case.items() if k != "complex"}) + "cm")
+    cc = case if case.get("complex") else dict(case, expr=X.complexify(case["expr"], rng))
+    try:
+        with quiet(), np.errstate(all="ignore"):
+            import nifty.cl as ift
+            b = X.Builder(cc["indom"], cc.get("space", "U"))
+            op = b.build(cc["expr"])
+            din, tdom = X.op_indom(b, op), X.dom(cc["expr"])
+            x0 = np.concatenate([np.asarray(cc["x"][k], dtype=np.float64) for k, _ in X.flat_dom(din)])
+            z0 = x0 + 1j * np.array([rng.randint(-2, 2) / 32 for _ in x0])
+            p = X.from_flat(b, z0, din, np.complex128)
+            lin = op(ift.Linearization.make_var(p, False))
+            res = dict(val=X.to_flat(lin.val, tdom), pval=X.to_flat(op(p), tdom),
+                       jac=X.dense(lin.jac, b, din, tdom, np.complex128),
+                       adj=X.dense(lin.jac.adjoint_times, b, tdom, din, np.complex128), din=din, z0=z0)
+    except Exception as e:
+        return cc, {"error": type(e).__name__, "msg": str(e)[:160], "where": err_site(e)}
+    return cc, res
+
+
+def cclose(a, b, tol=TOL):
+    a, b = np.asarray(a, dtype=np.complex128), np.asarray(b, dtype=np.complex128)
+    if a.shape != b.shape:
+        return False
+    if a.size == 0:
+        return True
+    return bool(np.all(np.abs(a - b) <= tol * max(1.0, float(np.max(np.abs(b))))))
+
+
+def run_complex_model(ctx, cases):
+    """complex mode of the model (driver op linc) vs the real code on complexified holomorphic trees"""
+    todo = []
+    for c in cases:
+        if not holomorphic(c["expr"]):
+            continue
+        cc, r = complex_real(c)
+        if "error" in r:
+            ctx.stat("complex-model:real-error:" + r["error"])
+            ctx.counterexample(dict(cc, complex=True), f"complex constants/input: raised {r['error']} in {r.get('where')}: {r.get('msg')}",
+                               {"site": "complex-model", "kind": "error:" + r["error"], "where": r.get("where")})
+            continue
+        if not (np.all(np.isfinite(r["pval"])) and np.all(np.isfinite(r["jac"])) and np.max(np.abs(r["jac"]), initial=0) < 1e4
+                and np.max(np.abs(r["pval"]), initial=0) < 1e4):
+            ctx.stat("complex-model:left-range")
+            continue
+        din = r["din"]
+        z, o, xs = r["z0"], 0, {}
+        for k, n in X.flat_dom(din):
+            xs[k] = [[X.f2b(v.real), X.f2b(v.imag)] for v in z[o:o + X.nent(n)]]
+            o += X.nent(n)
+        todo.append((cc, r, dict(op="linc", **{"in": [[k, n] for k, n in X.flat_dom(din)]}, x=xs, expr=X.ship_c(cc["expr"]))))
+    outs = []
+    for i in range(0, len(todo), 250):
+        outs += ctx.model(DRIVER, [t[2] for t in todo[i:i + 250]])
+    for (cc, r, _), m in zip(todo, outs):
+        ctx.stat("complex-model")
+        case = dict(cc, complex=True)
+        ctx.case(case, nontrivial=True)
+        if "error" in m:
+            ctx.disagree(case, "values", m, "complex model: model rejects the tree")
+            continue
+        nin, nout = X.nflat(r["din"]), X.nflat(X.dom(cc["expr"]))
+        diffs = []
+        if not cclose(r["pval"], X.decc(m["pval"])) or not cclose(r["val"], X.decc(m["val"])):
+            diffs.append("value")
+        mj = np.array([X.decc(row) for row in m["jac"]]).reshape(nin, nout).T if nin and nout else np.zeros((nout, nin))
+        ma = np.array([X.decc(row) for row in m["adj"]]).reshape(nout, nin).T if nin and nout else np.zeros((nin, nout))
+        if not cclose(r["jac"], mj):
+            diffs.append("jacobian")
+        if not cclose(r["adj"], ma):
+            diffs.append("adjoint")
+        if diffs:
+            ctx.disagree(case, "real (complex): " + ", ".join(diffs) + " differ", "model (complex)",
+                         note="complex model: " + ", ".join(diffs))
+            if not cclose(r["adj"], r["jac"].conj().T, 1e-12):
+                ctx.counterexample(case, "complex constants/input: adjoint Jacobian is not the conjugate transpose",
+                                   {"site": "complex-model", "kind": "adjoint"})
+
+
 def shrink(case):
     if case.get("aux") == "cmetric":
         for i in range(len(case["steps"])):
@@ -528,6 +621,12 @@ def run(ctx):
     aux = []
     for pth in sorted(glob.glob(os.path.join(VERIF, "corpus", ID, "*.json"))):
         c = json.load(open(pth))["case"]
+        if c.get("complex"):
+            ctx.case(c, nontrivial=True)
+            res = oracle(c)
+            if res:
+                ctx.counterexample(c, *res)
+            continue
         (aux if "aux" in c else cases).append(c)
     # anchored mechanisms outside the Lean model (Linearization.outer, einsum.py, integrate): oracle on the real code
     aux += AUX.gen(ctx.rng, ctx.n(120, 800))
@@ -582,6 +681,7 @@ def run(ctx):
             ctx.stat("complex-oracle")
         if res:
             ctx.counterexample(c, *res)
+    run_complex_model(ctx, cases)
 
 
 def search(ctx):
